@@ -434,7 +434,9 @@ example : materialize (some [.sym "N", .known 2, .known 3]) false = some [-1, 2,
 /-- `abs` evaluator: every entry that is an `int` is checked, every symbolic entry is *assumed* non-negative.
 That is right for every binding: named symbols are bound to naturals, and unnamed entries are non-negative
 (`UnnamedNonneg`, an invariant established by `Shape` and preserved by `Gather`/`Concat` — theorems below; `add`
-never creates an unnamed entry).  The earlier `_partial` version required "no unnamed entry at all". -/
+never creates an unnamed entry).  The earlier `_partial` version required "no unnamed entry at all".
+**Conditional**: the hypothesis `hu : UnnamedNonneg s l` stays; it is proved per evaluator step below, its composition
+over a whole graph is not a theorem of this file. -/
 theorem abs_shape_identity (s : Shape) (h : evalAbs (some s) = true)
     (σ : String → Nat) (l : List Int) (hs : Admits σ s l) (hu : UnnamedNonneg s l) : ∀ v ∈ l, 0 ≤ v := by
   simp only [evalAbs, Bool.not_eq_true'] at h
@@ -570,8 +572,9 @@ theorem add_no_negative_in_sum (d₀ d₁ : Dim) (nm : String)
     | cases h
 
 /-- **D5, fixed by commit 4b0f9eb.**  `Abs(a + b)` replaced by `Identity` is now right for *every*
-binding and every pair of single-entry shape values: whenever `abs` fires on what `add` recorded, the
-run-time sum is non-negative. -/
+binding and every pair of **single-entry** shape values: whenever `abs` fires on what `add` recorded, the
+run-time sum is non-negative.  The statement covers one-entry values only (`Admits σ a [x]`, `Admits σ b [y]`); that is
+the whole domain on which `add` records anything (`evalAdd` is `none` for other lengths, and `evalAbs none = false`). -/
 theorem abs_after_add_sound (a b : Shape) (h : evalAbs (evalAdd (some a) (some b)) = true)
     (σ : String → Nat) (x y : Int) (ha : Admits σ a [x]) (hb : Admits σ b [y]) : 0 ≤ x + y := by
   match a, b, ha, hb with
@@ -797,11 +800,13 @@ example : scatterAllDynamic (some 0) (some 1) (some [.sym "N", .sym "M"]) (some 
 example : scatterAllDynamic (some 1) (some 0) (some [.sym "N", .sym "M"]) (some [.sym "N", .known 2]) = false := by decide
 example : scatterAllDynamic none (some 0) (some [.sym "N", .sym "M"]) (some [.sym "N", .known 2]) = false := by decide
 
-/-! ## Exact failing set of `Flatten2Reshape` -/
+/-! ## Failing set of `Flatten2Reshape` (outputs not annotated with a static 0) -/
 
-/-- **Exact characterisation of the open half of D6.**  Run-time dims may be 0.  Whenever the rule fires
-(so no static dim is 0), for every binding and every truthful output annotation without a static 0, the emitted
-Reshape returns the Flatten result — unless the target is `[0, -1]` *and* dim 0 is 0 at run time. -/
+/-- **The open half of D6, characterised within the stated hypotheses.**  Run-time dims may be 0 (`hn`: they are ≥ 0).
+Whenever the rule fires (so no static dim is 0), for `0 ≤ axis ≤ rank` (`hax`), every binding and every truthful output
+annotation **without a static 0** (`hoz` — a real restriction: an annotated static 0 would be written into the target as
+"copy"), the emitted Reshape returns the Flatten result — unless the target is `[0, -1]` *and* dim 0 is 0 at run time.
+Outputs annotated with a static 0 and negative `axis` attributes are outside this theorem. -/
 theorem flatten_to_reshape_exact (s : Shape) (out : Option Shape) (axis : Nat) (tgt : List Int)
     (h : flattenTarget (some s) out (axis : Int) = some tgt) (hax : axis ≤ s.length)
     (σ : String → Nat) (l : List Int) (hs : Admits σ s l) (hn : ∀ d ∈ l, 0 ≤ d)
@@ -965,7 +970,8 @@ theorem identity_eval_sound (gi : Bool) (i o : Option Shape) (r : Shape) (h : ev
           subst h
           exact merge_shapes_sound p q r hm σ l (hi _ rfl) (ho _ rfl)
 
-/-- The declared shape of a graph input is never changed by the `identity` evaluator (commit 71af564). -/
+/-- The declared shape of a graph input is never changed by the `identity` evaluator (commit 71af564).
+(Definitional unfolding of the model's flag; its content is the tie of `evalIdentity` to the code.) -/
 theorem identity_keeps_graph_input (i o : Option Shape) : evalIdentity true i o = i := by
   simp only [evalIdentity, if_true]
 
@@ -1031,7 +1037,8 @@ example : evalGather (some [.sym "N", .known 4]) (some 0) (some [-3]) = .raised 
 
 /-- `mul_by_1`, `add_0` (both operand orders), `sub_0`, `div_by_1`: when one of them fires, the matched constant
 has rank 0 (`_match_constant`: `ndim == 0`), so for **every** rank and every dims of the other operand — rank 0,
-symbolic, zero-size included — the node's result had exactly that operand's shape: `Identity(x)` preserves it. -/
+symbolic, zero-size included — the node's result had exactly that operand's shape: `Identity(x)` preserves it.
+(Near-trivial once the rank-0 test is in the model; the substance is `scalar_test_necessary` below and the `ruleNoOp` tie.) -/
 theorem no_op_rule_preserves_shape (op : NoOp) (side nd : Nat) (neutral : Bool)
     (h : noOpFires op side nd neutral = true) (lx lc : List Int) (hc : lc.length = nd) :
     broadcast lx lc = some lx ∧ broadcast lc lx = some lx := by
